@@ -303,8 +303,8 @@ type tmismatch struct {
 }
 
 type tcmp struct {
-	leaves map[string]int
-	nan    int
+	leaves  map[string]int
+	nan     int
 	enumOOR int
 }
 
